@@ -234,6 +234,9 @@ def corpus():
         out.append("EIDCBOR " + xhex(genb.ref_eid(e)))
     out += ["EIDCBOR x8200", "EIDCBOR x820100", "EIDCBOR x82016161", "EIDCBOR x8201", "EIDCBOR x82028200" + "00", "EIDCBOR x820160",
             "EIDCBOR x83016161" + "00", "EIDCBOR x8201f6"]
+    # dtn names as indefinite-length text (one chunk, two chunks, none): a decoder that can only borrow the text would not see them
+    out += ["EIDCBOR x82017f652f2f612f62ff", "EIDCBOR x82017f622f2f63612f62ff", "EIDCBOR x82017fff", "EIDCBOR x82017f646e6f6e65ff",
+            "EIDCBOR x9f017f652f2f612f62ffff"]
     return out
 
 
